@@ -36,27 +36,26 @@ pub fn build_from_ast(e: &OpeningHoursExpression, hol: &HolSpec) -> crate::strea
     build(&render::plain(e), hol).expect("denotable expression must parse")
 }
 
+/// The normal form of `e` (as held by `OpeningHours::normalize()`) prints to something that parses
+/// back and evaluates identically (kinds and comment sets).
+pub fn normal_form_roundtrip(e: &OpeningHoursExpression, hol: &HolSpec, r: &mut Rng, sweep: i64) -> Result<(String, bool), String> {
+    let oh = build_from_ast(e, hol);
+    let norm = guarded(|| oh.normalize()).map_err(|p| format!("normalize panicked: {p}"))?;
+    let printed = guarded(|| norm.to_string()).map_err(|p| format!("printing the normal form panicked: {p}"))?;
+    let reparsed_ast = lib_parse(&printed).map_err(|err| format!("the normal form prints as {printed:?}, which does not parse back: {err}"))?;
+    let n_ast = guarded(|| e.clone().normalize()).map_err(|p| format!("normalize panicked: {p}"))?;
+    let reparsed = build(&printed, hol).ok_or_else(|| format!("normal form {printed:?} rejected by OpeningHours::parse"))?;
+    let days = evalcmp::comparison_days(&[&n_ast, &reparsed_ast], hol, r, 48, 32, sweep);
+    if let Some((_, diff)) = evalcmp::first_difference(&norm, &reparsed, &days, true).map_err(|p| format!("normal form {printed:?}: {p}"))? {
+        return Err(format!("the normal form prints as {printed:?}, which evaluates differently {diff} (normal form vs reparsed)"));
+    }
+    Ok((printed, reparsed_ast == n_ast))
+}
+
 /// All C06 checks on one expression (which must be denotable).
 pub fn check(e: &OpeningHoursExpression, hol: &HolSpec, r: &mut Rng, sweep: i64) -> Result<(bool, bool), String> {
     let (_, same1) = roundtrip(e, hol, r, sweep, "expression")?;
-    let n = guarded(|| e.clone().normalize()).map_err(|p| format!("normalize panicked: {p}"))?;
-    // the normal form itself must be printable and reparseable to something equivalent to it
-    let printed = guarded(|| n.to_string()).map_err(|p| format!("printing the normal form panicked: {p}"))?;
-    let reparsed = lib_parse(&printed).map_err(|err| format!("the normal form prints as {printed:?}, which does not parse back: {err}"))?;
-    let same2 = reparsed == n;
-    if !same2 {
-        // compare evaluation of the normal form (as an AST) with its reparsed print-out; the normal
-        // form may contain shapes no rendering denotes, so it is evaluated through its own print
-        // only when it differs structurally: then both sides are the reparsed value and the
-        // comparison is with the normal form of the reparsed string's own round trip
-        let a = build(&printed, hol).ok_or_else(|| format!("normal form {printed:?} rejected by OpeningHours::parse"))?;
-        let printed2 = guarded(|| reparsed.to_string()).map_err(|p| format!("printing panicked: {p}"))?;
-        let b = build(&printed2, hol).ok_or_else(|| format!("re-printed normal form {printed2:?} does not parse"))?;
-        let days = evalcmp::comparison_days(&[&n, &reparsed], hol, r, 48, 32, sweep);
-        if let Some((_, diff)) = evalcmp::first_difference(&a, &b, &days, true).map_err(|p| format!("normal form {printed:?}: {p}"))? {
-            return Err(format!("the normal form {printed:?} re-prints as {printed2:?}, which evaluates differently {diff}"));
-        }
-    }
+    let (_, same2) = normal_form_roundtrip(e, hol, r, sweep)?;
     Ok((same1, same2))
 }
 
